@@ -31,10 +31,14 @@ def run(ctx):
     cases = [c for c in cases if c["accepted"]]
     # vertex labels that differ by exactly a power of two (8..128), in every run
     for nm, edges in gen.collision_labelled(rng):
-        for _ in range(2):
-            c2 = graphs.make_case(rng, edges, rng.randint(1, 6), want=True)
-            if c2 is not None:
-                c2 = dict(c2); c2["name"] = nm; cases.append(c2)
+        got = 0
+        for _ in range(12):
+            # (every step 8..128 must contribute ACCEPTED graphs in every run, whatever the random stream: up to 12 attempts for 2)
+            c2 = graphs.make_case(rng, edges, rng.randint(1, 6), want=True, ext_mode=rng.choice(["all", "all", "subset", "two"]))
+            if c2 is not None and c2["accepted"]:
+                c2 = dict(c2); c2["name"] = nm; cases.append(c2); got += 1
+                if got >= 2:
+                    break
     cases = [c for c in cases if c["accepted"]]
     # the same topology again with other weights / other D (history inside one process)
     extra = []
@@ -284,3 +288,22 @@ def run(ctx):
                           f"(fields {diff}): J, omega and the cached normalisation are functions of the graph alone", r,
                           expected={k: (ta[k] if k != "entries" else "...") for k in diff} if isinstance(diff, list) else None,
                           observed={k: (tb[k] if k != "entries" else "...") for k in diff} if isinstance(diff, list) else None)
+
+    # ---- the same graph built through the public path for ANOTHER dimension afterwards (same process, same thread): the table is a function
+    # of (graph, D) - J, omega and the normalisation of the second build are those of its own dimension
+    dreqs, dinfo = [], []
+    for c, a in [(c, a) for c, a in zip(cases, impl) if a.get("status") == "ok" and len(c["edges"]) <= 6][: (8 if ctx.quick else 40)]:
+        D2 = c["D"] + 1 if c["D"] < 6 else c["D"] - 1
+        Sg, _ = kin.fundamental_signature(rng, c["edges"])
+        r1 = dict(graphs.request(c), op="build", sig=Sg)
+        r2 = dict(r1, D=D2)
+        h2 = dict(graphs.request(c), D=D2)            # the hook-level table for the other dimension
+        dreqs += [r1, r2, h2]; dinfo.append((c, D2))
+    dres = run_harness(dreqs)
+    for i, (c, D2) in enumerate(dinfo):
+        b1, b2, h2 = dres[3 * i], dres[3 * i + 1], dres[3 * i + 2]
+        ctx.case(["two_dimensions", c["edges"], c["weights"], c["D"], D2], nontrivial=True); ctx.count("api_build.second_dimension")
+        if b2.get("status") != h2.get("status") or (b2.get("status") == "ok" and b2.get("table") != h2.get("table")):
+            ctx.violation(f"Graph::build_sampler::<{D2}> after build_sampler::<{c['D']}> of the same graph in one process: status {b2.get('status')} / table differ from "
+                          f"generate_from_tropical for D = {D2} ({h2.get('status')})", dict(dreqs[3 * i + 1], first_built_for_D=c["D"]),
+                          expected=h2.get("status"), observed=b2.get("status") if b2.get("status") != h2.get("status") else "a different table")
